@@ -298,6 +298,12 @@ func (c *Ctx) violation(caseName, class string, tags map[string]string, msg stri
 	}
 	c.violations++
 	c.perClass[class]++
+	if lf := os.Getenv("VERIF_VIOLATION_LOG"); lf != "" {
+		if f, err := os.OpenFile(lf, os.O_APPEND|os.O_CREATE|os.O_WRONLY, 0o644); err == nil {
+			fmt.Fprintf(f, "%s\t%s\t%s\t%s\n", c.ID, class, jsonStr(tags), strings.ReplaceAll(msg, "\n", " "))
+			f.Close()
+		}
+	}
 	if c.perClass[class] > 5 || c.violFiles >= 40 {
 		return // counted, but not every instance is written out
 	}
